@@ -3,6 +3,12 @@
  * path operations (kind P).  Grammar: see props/c10.py.  One case per forked
  * child, so the process-global store starts empty.
  *
+ * Kind G goes through the interface programs use: mpt_config_set (separator and
+ * end character), mpt_config_query with handlers (also one that walks the
+ * collection it is given), mpt_config_getp / mpt_config_get with type 0, vector
+ * of char and 's', and the metatype side of the handles (type list, addref,
+ * clone, conversion to a node pointer, the NULL path forms).
+ *
  * The state is read back independently of the library: the node tree is walked
  * from the file-local `nodeGlobal` (config_global.c is included below), link
  * fields are checked, item arrays are walked slot by slot from the raw buffer.
@@ -36,14 +42,18 @@ static void enc(size_t lim, const void *p, size_t n)
 }
 #define venc(p, n) enc(6, p, n)
 
-struct spec { int h; int sep; char *str; };
+struct spec { int h; int sep; char *str; int end; };
 
-static struct spec parse_spec(const char *t)
+/* <handle>:<sephex>:<str>[:<endhex>] */
+static struct spec parse_spec(const char *t0)
 {
 	struct spec s;
-	const char *c1 = strchr(t, ':'), *c2 = c1 ? strchr(c1 + 1, ':') : 0;
-	unsigned sep = 0;
+	char *t = strdup(t0);
+	char *c1 = strchr(t, ':'), *c2 = c1 ? strchr(c1 + 1, ':') : 0, *c3 = c2 ? strchr(c2 + 1, ':') : 0;
+	unsigned sep = 0, end = 0;
 	if (!c1 || !c2) { fprintf(stderr, "bad pathspec %s\n", t); _exit(3); }
+	if (c3) { *c3 = 0; sscanf(c3 + 1, "%2x", &end); }
+	s.end = (int) end;
 	s.h = atoi(t);
 	sscanf(c1 + 1, "%2x", &sep);
 	s.sep = (int) sep;
@@ -121,10 +131,38 @@ static int get_handler(void *ptr, MPT_INTERFACE(convertable) *val, const MPT_INT
 	c->found = meta_text((MPT_INTERFACE(metatype) *) val, &c->base, &c->len) ? 2 : 1;
 	return 0;
 }
+/* result class of mpt_config_getp / mpt_config_get: y = found, n = MissingData, t = BadType */
+static void put_class(int r)
+{
+	if (r >= 0) vh_add("y");
+	else if (r == MPT_ERROR(MissingData)) vh_add("n");
+	else if (r == MPT_ERROR(BadType)) vh_add("t");
+	else vh_add("%d", r);
+}
+static void put_vec(int r, const struct iovec *vec)
+{
+	size_t len = vec->iov_len;
+	const uint8_t *b = (const uint8_t *) vec->iov_base;
+	if (r < 0) { put_class(r); return; }
+	if (!b) { vh_add("Z"); return; }
+	if (len && !b[len - 1]) --len;
+	vh_add("V"); venc(b, len);
+}
+static void put_str(int r, const char *str)
+{
+	if (r < 0) { put_class(r); return; }
+	if (!str) { vh_add("Z"); return; }
+	vh_add("V"); venc(str, strlen(str));
+}
+/* one observation: the element as a query handler sees it, then what the value
+ * accessors mpt_config_getp (type 0, vector of char, 's') and, for '.'-separated
+ * strings, mpt_config_get report */
 static void observe_cfg(MPT_INTERFACE(config) *cfg, const struct spec *s)
 {
 	MPT_STRUCT(path) p = MPT_PATH_INIT;
 	struct getctx c = { 0, 0, 0 };
+	struct iovec vec = { 0, 0 };
+	const char *str = 0;
 	int r;
 	if (s->str) {
 		p.sep = s->sep;
@@ -132,20 +170,85 @@ static void observe_cfg(MPT_INTERFACE(config) *cfg, const struct spec *s)
 		mpt_path_set(&p, s->str, -1);
 	}
 	r = mpt_config_query(cfg, &p, get_handler, &c);
-	if (r < 0 || !c.found) { vh_add("A"); return; }
-	if (c.found == 1) { vh_add("E"); return; }
-	vh_add("V"); venc(c.base, c.len);
+	if (r < 0 || !c.found) vh_add("A");
+	else if (c.found == 1) vh_add("E");
+	else { vh_add("V"); venc(c.base, c.len); }
+	vh_add("/");
+	put_class(mpt_config_getp(cfg, &p, 0, 0));
+	vh_add("/");
+	r = mpt_config_getp(cfg, &p, MPT_type_toVector('c'), &vec);
+	put_vec(r, &vec);
+	vh_add("/");
+	r = mpt_config_getp(cfg, &p, 's', &str);
+	put_str(r, str);
+	if (s->sep == '.') {
+		str = 0;
+		vh_add("/");
+		r = mpt_config_get(cfg, s->str, 's', &str);
+		put_str(r, str);
+	}
 }
-
+/* ---- listing through the collection a query handler receives (collectionEach) */
+struct lctx { int count, depth; };
+static int list_item(void *ptr, const MPT_STRUCT(identifier) *id, MPT_INTERFACE(convertable) *val, const MPT_INTERFACE(collection) *sub)
+{
+	struct lctx *c = (struct lctx *) ptr, ch;
+	const uint8_t *b; size_t l;
+	if (!c->count++) { if (c->depth) vh_add("("); }
+	else vh_add(",");
+	venc(mpt_identifier_data(id), id->_len ? id->_len - 1 : 0);
+	if (meta_text((MPT_INTERFACE(metatype) *) val, &b, &l)) { vh_add("="); venc(b, l); }
+	else vh_add("!");
+	ch.count = 0;
+	ch.depth = c->depth + 1;
+	if (sub && sub->_vptr->each(sub, list_item, &ch) < 0) vh_add("?");
+	if (ch.count) vh_add(")");
+	return 0;
+}
+static int list_handler(void *ptr, MPT_INTERFACE(convertable) *val, const MPT_INTERFACE(collection) *coll)
+{
+	struct lctx ch = { 0, 0 };
+	const uint8_t *b; size_t l;
+	(void) ptr;
+	vh_add("L");
+	if (meta_text((MPT_INTERFACE(metatype) *) val, &b, &l)) { vh_add("="); venc(b, l); }
+	else vh_add("!");
+	vh_add("(");
+	if (coll && coll->_vptr->each(coll, list_item, &ch) < 0) vh_add("?");
+	if (!ch.count) vh_add("0");
+	vh_add(")");
+	return 0;
+}
+/* a handler whose item callback refuses the first item: the error must come back */
+static int stop_item(void *ptr, const MPT_STRUCT(identifier) *id, MPT_INTERFACE(convertable) *val, const MPT_INTERFACE(collection) *sub)
+{
+	(void) ptr; (void) id; (void) val; (void) sub;
+	return -7;
+}
+static int stop_handler(void *ptr, MPT_INTERFACE(convertable) *val, const MPT_INTERFACE(collection) *coll)
+{
+	(void) ptr; (void) val;
+	return coll ? coll->_vptr->each(coll, stop_item, 0) : 0;
+}
+struct selfctx { const void *self; int same; };
+static int self_handler(void *ptr, MPT_INTERFACE(convertable) *val, const MPT_INTERFACE(collection) *coll)
+{
+	struct selfctx *c = (struct selfctx *) ptr;
+	c->same = ((const void *) val == c->self && !coll) ? 1 : 0;
+	return 0;
+}
 static void run_global(int ntok, char **tok)
 {
 	int i = 2, nv, no, k;
 	struct spec *views, *obs;
 	MPT_INTERFACE(config) **cfg;
+	MPT_INTERFACE(metatype) **mts;
 
 	nv = atoi(tok[i++]);
 	views = (struct spec *) calloc(nv + 1, sizeof(*views));
 	cfg = (MPT_INTERFACE(config) **) calloc(nv + 1, sizeof(*cfg));
+	mts = (MPT_INTERFACE(metatype) **) calloc(nv + 1, sizeof(*mts));
+	mts[0] = mpt_config_global(0);
 	for (k = 0; k < nv; k++) views[k] = parse_spec(tok[i++]);
 	no = atoi(tok[i++]);
 	obs = (struct spec *) calloc(no + 1, sizeof(*obs));
@@ -163,6 +266,7 @@ static void run_global(int ntok, char **tok)
 			vh_tok("F:view");
 			return;
 		}
+		mts[k + 1] = mt;
 	}
 	while (i < ntok) {
 		const char *op = tok[i++];
@@ -172,10 +276,73 @@ static void run_global(int ntok, char **tok)
 		s = parse_spec(tok[i++]);
 		if (!strcmp(op, "a")) {
 			char *v = cstr_of_hex(tok[i++]);
-			r = mpt_config_set(cfg[s.h], s.str, v, s.sep, 0);
+			r = mpt_config_set(cfg[s.h], s.str, v, s.sep, s.end);
 			vh_tok("%s", r >= 0 ? "ok" : "no");
-		} else {
-			r = mpt_config_set(cfg[s.h], s.str, 0, s.sep, 0);
+		}
+		else if (!strcmp(op, "l")) {
+			/* walk the collection handed to the query handler */
+			MPT_STRUCT(path) p = MPT_PATH_INIT;
+			if (s.str) {
+				p.sep = s.sep;
+				p.assign = 0;
+				mpt_path_set(&p, s.str, -1);
+			}
+			vh_tok("%s", "");
+			if (mpt_config_query(cfg[s.h], &p, list_handler, 0) < 0) vh_add("LA");
+			else vh_add(";s%d", mpt_config_query(cfg[s.h], &p, stop_handler, 0));
+		}
+		else if (!strcmp(op, "n")) {
+			/* the handle as node pointer: a view gets or creates its base node */
+			MPT_STRUCT(node) *n = 0;
+			r = MPT_metatype_convert(mts[s.h], MPT_ENUM(TypeNodePtr), &n);
+			if (r < 0 || !n) vh_tok("N%d", r);
+			else {
+				const uint8_t *b; size_t l;
+				vh_tok("Ny:");
+				venc(mpt_identifier_data(&n->ident), n->ident._len ? n->ident._len - 1 : 0);
+				if (meta_text(n->_meta, &b, &l)) { vh_add("="); venc(b, l); }
+				else vh_add("!");
+			}
+		}
+		else if (!strcmp(op, "y")) {
+			/* remove with path == NULL: a view drops the value of its base element */
+			MPT_INTERFACE(config) *self = cfg[s.h];
+			if (!self) MPT_metatype_convert(mts[s.h], MPT_ENUM(TypeConfigPtr), &self);
+			vh_tok("y%d", self->_vptr->remove(self, 0));
+		}
+		else if (!strcmp(op, "k")) {
+			/* metatype side of the handle: type list, reference counting, clone (the clone
+			 * replaces the handle, the old one is released), the NULL path forms */
+			MPT_INTERFACE(metatype) *mt = mts[s.h], *cl;
+			MPT_INTERFACE(config) *c2 = 0;
+			const uint8_t *fmt = 0;
+			struct selfctx sc = { 0, -1 };
+			const char *txt = 0;
+			MPT_INTERFACE(config) *self = cfg[s.h];
+			if (!self) MPT_metatype_convert(mt, MPT_ENUM(TypeConfigPtr), &self);
+			sc.self = mt;
+			vh_tok("K%d.%d.", MPT_metatype_convert(mt, 0, 0), MPT_metatype_convert(mt, 0, &fmt));
+			if (fmt) vh_hex(fmt, strlen((const char *) fmt)); else vh_add("~");
+			vh_add(".%d", (int) mt->_vptr->addref(mt));
+			cl = mt->_vptr->clone(mt);
+			if (cl && MPT_metatype_convert(cl, MPT_ENUM(TypeConfigPtr), &c2) >= 0 && c2) {
+				vh_add(".c");
+				mt->_vptr->unref(mt);
+				mts[s.h] = cl;
+				cfg[s.h] = c2;
+				self = c2;
+				sc.self = cl;
+			}
+			else {
+				vh_add(".~");
+				mt->_vptr->unref(mt);   /* the static global instance: nothing happens */
+			}
+			self->_vptr->query(self, 0, self_handler, &sc);
+			vh_add(".%d.%d.%d.%d", sc.same, self->_vptr->query(self, 0, 0, 0), self->_vptr->assign(self, 0, 0),
+			       MPT_metatype_convert(mts[s.h], 's', &txt));
+		}
+		else {
+			r = mpt_config_set(cfg[s.h], s.str, 0, s.sep, s.end);
 			vh_tok("%s", r == 1 ? "rm" : "--");
 		}
 		vh_add("|%d|", links_ok(nodeGlobal, 0));
@@ -337,7 +504,7 @@ static void run_path(int ntok, char **tok)
 {
 	MPT_STRUCT(path) p = MPT_PATH_INIT;
 	unsigned sep = 0, asg = 0;
-	int i = 4;
+	int i = 4, forked = 0;
 	sscanf(tok[2], "%2x", &sep);
 	sscanf(tok[3], "%2x", &asg);
 	p.sep = (char) sep;
@@ -375,7 +542,12 @@ static void run_path(int ntok, char **tok)
 			show_path(&p, 0, 0);
 		}
 		else if (!strcmp(op, "bin")) { p.flags |= MPT_PATHFLAG(SepBinary); show_path(&p, 0, 0); }
+		else if (!strcmp(op, "clr")) { r = mpt_path_invalidate(&p); show_path(&p, r < 0 ? r : 0, 0); }
+		/* copies are a C++ matter (kind Q); a C struct copy changes nothing */
+		else if (!strcmp(op, "cp") || !strcmp(op, "asg")) { show_path(&p, 0, 0); }
+		else if (!strcmp(op, "fork")) { forked = 1; show_path(&p, 0, 0); }
 		else { fprintf(stderr, "bad op %s\n", op); _exit(3); }
+		if (forked) vh_add(";o1");
 	}
 }
 
